@@ -64,7 +64,9 @@ def constant_types():
 STRINGS = [("''", ""), ("'a'", "a"), ('"z"', "z"), ("'ab'", "ab"), ("'é'", "é"), ("'\\u0000'", "\x00"), ("'\\u007f'", "\x7f"), ("'\\u0080'", "\x80"), ("'\\n'", "\n"), ("'€'", "€"), ("'\\ud800'", "\ud800"), ("'\\U0010ffff'", "\U0010ffff"),
            ("'a\u00e9'", "a\u00e9"), ("'\u00e9a'", "\u00e9a"), ("'\u00e9a\u20ac'", "\u00e9a\u20ac"), ("'a\\u00e9'", "a\u00e9"), ("' '", " "), ("'\\t'", "\t"), ("'~'", "~"), ("'aa'", "aa"),
            # non-ASCII characters whose canonical (NFC) form is an ASCII character: still not ASCII string literals
-           ("'\\u212a'", "\u212a"), ("'\u212a'", "\u212a"), ("'\\u037e'", "\u037e"), ("'\u1fef'", "\u1fef"), ("'\\u212b'", "\u212b")]
+           ("'\\u212a'", "\u212a"), ("'\u212a'", "\u212a"), ("'\\u037e'", "\u037e"), ("'\u1fef'", "\u1fef"), ("'\\u212b'", "\u212b"),
+           # one ASCII character next to characters that cannot be encoded at all (lone surrogates): two characters, not one
+           ("'A\\ud800'", "A\ud800"), ("'\\udfffz'", "\udfffz"), ("'\\ud800\\udc00'", "\ud800\udc00"), ("'\\udc00a\\ud800'", "\udc00a\ud800"), ("'\\ud83d\\ude00'", "\ud83d\ude00")]
 
 
 def initializers(desc):
